@@ -7,7 +7,7 @@ import random
 from . import core
 
 C06_REASONS = {"unreported-param", "unreported-query", "spec-walk", "residual", "refusal"}
-C07_REASONS = {"idem", "value", "failed", "confluence", "accepted", "panic"}
+C07_REASONS = {"idem", "meaning", "value", "failed", "confluence", "accepted", "panic"}
 TOOL_REASONS = {"schedule", "projection"}
 
 CFG_STAGING = """CONSTANTS
@@ -48,13 +48,16 @@ def env_for_driver(env):
     return out
 
 
+STEP_TERMS = 2       # schedules per template whose intermediate templates are reported and evaluated by TLC
+
+
 def run_group(groups, env, refusals, tag, nproc):
     """groups: list of (tx, [scheds], kind).  Returns (driver results, trace result, events)."""
     denv = env_for_driver(env)
     jobs = []
     for i, (tx, scheds, kind) in enumerate(groups):
         jobs.append({"id": i, "cmd": "staging", "tx": core.untlcify(tx), "env": denv,
-                     "scheds": scheds, "refusals": refusals})
+                     "scheds": scheds, "refusals": refusals, "step_terms": STEP_TERMS})
     results = core.run_driver(jobs)
     evs = []
     for i, (tx, scheds, kind) in enumerate(groups):
@@ -82,6 +85,8 @@ def sig_of(b):
         return f"failed|{d.get('stage')}|{d.get('kind')}"
     if w == "value":
         return f"value|{d.get('tag')}"
+    if w == "meaning":
+        return f"meaning|{d.get('stage')}|{d.get('tag')}"
     if w in ("unreported-param", "unreported-query", "spec-walk", "residual"):
         return w
     if w == "refusal":
@@ -209,9 +214,15 @@ def canary_c07(rep, groups, evs):
         if ev["ev"] == "Step" and ev.get("idem") == "yes":
             ev["idem"] = "no"
             break
-    tr = core.tlc_trace("Trace_Staging", [a, b], "c07_canary", nproc=1)
+    # an intermediate template whose first component no longer denotes what the template denotes
+    c = copy.deepcopy(src)
+    for ev in c:
+        if ev["ev"] == "Step" and ev.get("terms"):
+            ev["terms"][0] = {"k": "number", "num": core.I(12345)}
+            break
+    tr = core.tlc_trace("Trace_Staging", [a, b, c], "c07_canary", nproc=1)
     whys = {(x["case"], x["why"]) for x in tr.bad}
-    if not ({(0, "value"), (1, "idem")} <= whys):
+    if not ({(0, "value"), (1, "idem"), (2, "meaning")} <= whys):
         raise core.ToolError(f"canary not rejected: binding broken ({tr.bad[:3]})")
     rep.extra["canary_rejected"] = True
 
